@@ -149,7 +149,7 @@ def model_check_cached(module, cfg, deps, workers=8, timeout=3600, xmx="12g"):
     distinct, gen = tlc_stats(out)
     m = re.search(r"The depth of the complete state graph search is (\d+)", out)
     ok = "Model checking completed. No error has been found." in out
-    violated = re.findall(r"Error: (?:Invariant|Action property|Temporal properties?) ?(\w*) (?:is|were) violated", out)
+    violated = re.findall(r"Error: (?:Invariant|Action property|Temporal propert(?:y|ies)) ?(\w*) (?:is|was|were) violated", out)
     r = {"module": module, "cfg": cfg, "distinct_states": distinct, "states_generated": gen, "depth": int(m.group(1)) if m else None,
          "completed": ok, "violated": violated, "cached": False, "cmd": f"tlc -workers {workers} -config {cfg} {module}"}
     if not ok:
